@@ -29,6 +29,17 @@ Proof.
   exact (proj1 (net_addrs_inside n pl a Hn Hin)).
 Qed.
 
+(* with a non-empty port list, or for a command that does not chunk, the scan does not depend on what the
+   chunk loop does with an empty list *)
+Lemma run_command_once table size once1 once2 cmd f inp :
+  (c_engine cmd = EChunked -> i_ports inp <> []) ->
+  run_command table size once1 cmd f inp = run_command table size once2 cmd f inp.
+Proof.
+  intros H. unfold run_command. destruct (well_formed table f inp (resolve f (c_gen cmd))); [|reflexivity].
+  f_equal. destruct (c_engine cmd); try reflexivity.
+  unfold port_scan_engine. destruct (i_ports inp); [exfalso; apply (H eq_refl); reflexivity|reflexivity].
+Qed.
+
 (* parseExcludeFile: what it accepts is a list of IPv4 nets (under the library shape assumptions) *)
 Section ExcludeParse.
 Variable cidr_of : list Z -> option ipnet.
